@@ -612,6 +612,10 @@ func (w *world) checkC07(got []result) {
 			vs.Failf("c07:garbled-stream", "byte stream is not a sequence of request frames at offset %d: % x (%v)", len(stream)-len(rest), rest[:hs], err)
 			return
 		}
+		if h.Length < 0 || h.Length > 1<<24 {
+			vs.Failf("c07:garbled-stream", "byte stream is not a sequence of request frames at offset %d: implausible length %d in header % x", len(stream)-len(rest), h.Length, rest[:hs])
+			return
+		}
 		if len(rest) < hs+int(h.Length) {
 			break
 		}
